@@ -19,3 +19,15 @@ PROPS["C06"] = Prop(
     nontrivial=lambda scen_line, impl: "some(" in impl,
 )
 PARAMS["C06"] = {"rule": "exhaustive: for N in 0..=8, every reachable (front, back), directly and via a clone, every operation with every argument 0..=len+2, bracketed by the passive observers; plus seeded random operation sequences (length ≤ 64) over the length lattice. Distinct = distinct scenario lines; non-trivial = at least one operation returned Some(_)."}
+
+PROPS["C01"] = Prop(
+    "C01", ["GA.Props.C01"],
+    [Engine("layout", scen.layout, sig=lambda l: l.split()[0]),
+     Engine("layout", scen.layout_full, bin="layout_full", sig=lambda l: l.split()[0])],
+    trusted=[KERNEL, TRANSLATOR, HARNESS,
+             "modelled, not verified: rustc's implementation of repr(C), repr(transparent), [T; 0] and PhantomData layout (the Rust Reference's algorithm is the model); validated against size_of/align_of on the grid"],
+    assumptions=["every Rust type has 0 < align and align | size (language guarantee); element layouts are abstracted to (size, align)",
+                 "the oracle [T; N] is represented by the language-guaranteed N * size_of::<T>() / align_of::<T>()"],
+    nontrivial=lambda scen_line, impl: " n=0" not in scen_line and "tsize=0" not in scen_line,
+)
+PARAMS["C01"] = {"rule": "19 element layouts (sizes 0..64, aligns 1..64, padded tuples, packed, aligned ZSTs, nested GenericArrays) x the length lattice (quick) or every N in 0..=1025 plus every 2^k, 2^k-1, 10^k up to 2^62 for ZST and 2^60 for u8 (thorough). Distinct = distinct (type, N); non-trivial = N > 0 and size > 0."}
